@@ -404,43 +404,39 @@ func (c *Ctx) checkSMCodec(sm *StateMachine) {
 	if !found {
 		c.Undecided("%s.NewMsgFromCbor: no switch on the message type parameter", sm.Pkg)
 	}
-	defErr := false
-	if helper == nil {
-		for _, s := range defBody {
-			if r, ok := s.(*ast.ReturnStmt); ok && len(r.Results) == 2 {
-				if id, ok := unparen(r.Results[1]).(*ast.Ident); !(ok && id.Name == "nil") {
-					defErr = true
-				}
-			}
+	// unknown message types are rejected: with the tag valued outside the table, no return with a nil error is
+	// reachable (branches on the tag and on the results of same-package helpers taking the tag are evaluated)
+	_, _, _ = hasDefault, defBody, helper
+	fnS := c.SSAOf(fobj)
+	tagAtom := ""
+	for i, q := range fnS.Params {
+		if q.Object() == tagParam {
+			tagAtom = fmt.Sprintf("p%d", i)
 		}
-	} else {
-		// the switch lives in a helper that yields nil for an unknown tag; the caller must turn nil into an error:
-		// every return of a message with a nil error lies behind the helper-result != nil edge
-		defNil := false
-		for _, s := range defBody {
-			if r, ok := s.(*ast.ReturnStmt); ok && len(r.Results) == 1 {
-				if id, ok := unparen(r.Results[0]).(*ast.Ident); ok && id.Name == "nil" {
-					defNil = true
-				}
-			}
-		}
-		fn := c.SSAOf(fobj)
-		var sinks []ssa.Instruction
-		for _, r := range successReturns(fn) {
-			if !isNilConst(r.(*ssa.Return).Results[0]) {
-				sinks = append(sinks, r)
-			}
-		}
-		hk := "call:" + ssaFuncKey(c.SSAOf(helper)) + "("
-		all := len(sinks) > 0
-		for _, v := range c.mustPass(fn, sinks, func(f string) bool { return strings.HasPrefix(f, hk) && strings.HasSuffix(f, ") != nil") }) {
-			if !v.OK {
-				all = false
-			}
-		}
-		defErr = defNil && all
 	}
-	c.Check(hasDefault && defErr, "sm-codec-default", sm.Pkg, fd.Pos(), "unknown message types return an error", "NewMsgFromCbor default case does not return an error")
+	if tagAtom == "" {
+		c.Undecided("%s.NewMsgFromCbor: message type parameter not found in SSA", sm.Pkg)
+	}
+	maxTag := int64(0)
+	for v := range vals {
+		if v > maxTag {
+			maxTag = v
+		}
+	}
+	defErr := true
+	for _, k := range []int64{maxTag + 1, maxTag + 1000, 1 << 20} {
+		if _, isCase := vals[k]; isCase {
+			continue
+		}
+		reach := psReachVal(fnS, []*ssa.BasicBlock{fnS.Blocks[0]}, nil, map[string]int64{tagAtom: k})
+		for _, r := range successReturns(fnS) {
+			if reach[r.Block()] {
+				defErr = false
+			}
+		}
+	}
+	hasDefault = true
+	c.Check(hasDefault && defErr, "sm-codec-default", sm.Pkg, fd.Pos(), "unknown message types return an error", "NewMsgFromCbor can return a nil error for a message type outside its table")
 	for _, id := range sm.sortedIDs() {
 		for _, t := range sm.Entries[id].Trans {
 			_, ok := vals[t.MsgType]
